@@ -37,7 +37,8 @@ func sortedVersions() []gmsl.RoomVersion {
 type jsonFeatures struct {
 	keyNeedsEscape bool
 	strNeedsEscape bool
-	negZeroPrefix  bool // a literal "-0." / "-0e" / "-0E": non-zero or zero written with a leading -0
+	negZeroPrefix  bool
+	expMinusZero   bool // a literal "-0." / "-0e" / "-0E": non-zero or zero written with a leading -0
 	nonPlainNumber bool
 	bigObject      bool
 	numClass       map[string]bool
@@ -92,6 +93,9 @@ func featuresOf(v *ref.Value) jsonFeatures {
 			if strings.HasPrefix(x.N, "-0") && len(x.N) > 2 {
 				f.negZeroPrefix = true
 			}
+			if strings.Contains(x.N, "e-0") || strings.Contains(x.N, "E-0") {
+				f.expMinusZero = true
+			}
 			if !ref.PlainInt(x.N) || x.N[0] == '-' {
 				f.nonPlainNumber = true
 			}
@@ -121,7 +125,9 @@ func checkCanon(c *mon.Ctx, v *ref.Value, text []byte) []byte {
 	}
 	if !ref.Equal(pv, v) {
 		sig := "canon:value-changed:other"
-		if f.keyNeedsEscape {
+		if f.expMinusZero {
+			sig = "canon:value-changed:exponent-minus-zero"
+		} else if f.keyNeedsEscape {
 			sig = "canon:value-changed:key-needs-escape"
 		} else if f.negZeroPrefix {
 			sig = "canon:value-changed:neg-zero-prefix"
